@@ -148,6 +148,27 @@ func facetGenOK(args []string) error {
 		}
 		srcs = append(srcs, src{kind: "fat", g: flags(GenSpec{Name: base + "f", Spec: fatSpec(rng.Fork()), Ext: "json"}, rng.Fork())})
 	}
+	// specs WITHOUT a components section whose bodies carry nested inline objects: every named
+	// helper type is registered while the operations are translated, none by the spec itself
+	for i := 0; i < 2; i++ {
+		inner := map[string]any{"type": "object", "properties": map[string]any{"id": map[string]any{"type": "integer"}, Pick(rng, []string{"tag", "note", "kind"}): map[string]any{"type": "string"}}}
+		shapes := []map[string]any{
+			{"type": "object", "properties": map[string]any{"pets": map[string]any{"type": "array", "items": inner}}},
+			{"type": "object", "properties": map[string]any{"owner": inner}},
+			{"type": "object", "additionalProperties": inner},
+			{"type": "array", "items": inner},
+		}
+		body := shapes[rng.Intn(len(shapes))]
+		resp := shapes[rng.Intn(len(shapes))]
+		op := map[string]any{"responses": map[string]any{"200": map[string]any{"description": "ok", "content": map[string]any{"application/json": map[string]any{"schema": resp}}}}}
+		if rng.Bool() {
+			op["requestBody"] = map[string]any{"content": map[string]any{"application/json": map[string]any{"schema": body}}}
+		}
+		doc := map[string]any{"openapi": "3.0.3", "info": map[string]any{"title": "t", "version": "1"},
+			"paths": map[string]any{"/shops/{shop}/pets": map[string]any{"post": op, "parameters": []any{map[string]any{"in": "path", "name": "shop", "required": true, "schema": map[string]any{"type": "string"}}}}}}
+		bs, _ := json.Marshal(doc)
+		srcs = append(srcs, src{kind: "nocomponents", g: flags(GenSpec{Name: fmt.Sprintf("g%02d_n%03d", *shard, i), Spec: bs, Ext: "json"}, rng.Fork())})
+	}
 	positions := []string{"query", "header", "pathparam", "prop", "schema", "opid", "seg"}
 	for i := 0; i < nStress; i++ {
 		pos := positions[(i+*shard)%len(positions)]
